@@ -48,6 +48,54 @@ func fullRangeElem(fa *FA, v ssa.Value) (string, bool, string) {
 	return containerRole(cont), true, ""
 }
 
+// fullRangeElemFrom: like fullRangeElem for the elements of cont[k:] (k a constant, no upper bound): v is element
+// k, k+1, ... of the container, every one of them.
+func fullRangeElemFrom(fa *FA, v ssa.Value) (string, int64, bool, string) {
+	cont, _, ok := asElemLoad(v)
+	if !ok {
+		return "", 0, false, "not an element load"
+	}
+	sl, isSl := cont.(*ssa.Slice)
+	if !isSl || sl.High != nil || sl.Max != nil || sl.Low == nil {
+		role, ok, why := fullRangeElem(fa, v)
+		return role, 0, ok, why
+	}
+	k, isK := constInt64(sl.Low)
+	if !isK || k < 0 {
+		return "", 0, false, "the sub-slice enumerated does not start at a constant"
+	}
+	var blk *ssa.BasicBlock
+	if ins, ok := stripConv(v).(ssa.Instruction); ok {
+		blk = ins.Block()
+	}
+	_, idx, _ := asElemLoad(v)
+	iv, ok := fa.InductionOf(idx, blk)
+	if !ok || !iv.FirstConst || iv.First != 0 || iv.Step != 1 || !iv.HasN {
+		return "", 0, false, "the sub-slice is not enumerated from its first element with step 1 under a guard"
+	}
+	// N = len(cont[k:]) = len(cont) - k
+	want := fa.lenOf(sl.X, 0).Add(linConst(-k))
+	lenSl := linAtom(fa.VN(sl))
+	_ = lenSl
+	if !iv.N.Eq(want) {
+		okN := false
+		if len(iv.N.T) == 1 && iv.N.K == 0 {
+			for atom, coef := range iv.N.T {
+				if cl, ok := asCall(fa.AtomValue(atom), "builtin len"); ok && coef == 1 && fa.VN(cl.Common().Args[0]) == fa.VN(cont) {
+					okN = true
+				}
+			}
+		}
+		if !okN {
+			return "", 0, false, "loop bound is " + iv.N.String() + ", not the length of the sub-slice"
+		}
+	}
+	if why := fa.earlyExit(iv); why != "" {
+		return "", 0, false, why
+	}
+	return containerRole(sl.X), k, true, ""
+}
+
 func runC12(c *Ctx, w *World, r *Report) {
 	names := []string{"bitmap.Of", "bitmap.OfMany", "bitmap.NewBuilder", "bitmap.(*Builder).Extend", "bitmap.(*Builder).Set", "bitmap.ToArray",
 		"bitmap.Get", "bitmap.Get1", "bitmap.SafeGet", "bitmap.SafeGet1"}
